@@ -24,6 +24,10 @@ def run(ctx):
     vlib.write_ndjson(cpath, cases)
     ctx.harness(binary, ["format-replay", cpath, opath])
     out = vlib.read_ndjson(opath)
+    # the overflow-checked build must behave the same (a panic that only it shows is a violation)
+    opath_c = ctx.path("out_checked.ndjson")
+    ctx.harness(ctx.build("checked", "mvh_text"), ["format-replay", cpath, opath_c])
+    out += [dict(o, profile="checked") for o in vlib.read_ndjson(opath_c) if o["kind"] == "mismatch"]
     unb = [o for o in out if o["kind"] == "unbuildable"]
     ninfo = sum(1 for o in out if o["kind"] == "info")
     for o in out:
